@@ -107,6 +107,9 @@ func runC04(c *Ctx, r *Report) {
 	allowed := map[string]bool{"decodeHeader/binary.Read": true, "decodeHeader/io.ReadFull": true, "fill/Read": true, "checkCRC/io.ReadFull": true, "decode/io.CopyN": true}
 	for i, rs := range reads {
 		k := rs.fn.Name() + "/" + rs.kind
+		if rs.kind == "io.CopyN" {
+			k = "decode/io.CopyN" // the CRC-only copy may live in a helper; the feed rule (R2) is applied where it is
+		}
 		r.check(allowed[k], "C04-R1-who-reads", fmt.Sprintf("%s#%d", k, i), c.pos(rs.call.Pos()), "enumerated read site", "unexpected read site of the input reader: "+k)
 	}
 	r.need("read sites of the input reader", len(reads), 5)
@@ -563,7 +566,7 @@ func c04Verdicts(c *Ctx, r *Report) {
 			key := fmt.Sprintf("%s/success-return#%d", fname, i)
 			i++
 			res := resolveSpill(ret.Results[len(ret.Results)-1])
-			if call, ok := res.(*ssa.Call); ok && tailCallOK != "" && call.Common().StaticCallee() != nil && call.Common().StaticCallee().Name() == tailCallOK {
+			if call, ok := res.(*ssa.Call); ok && tailCallOK != "" && call.Common().StaticCallee() != nil && (call.Common().StaticCallee().Name() == tailCallOK || c.reachesTargetOnSuccess(call.Common().StaticCallee(), tailCallOK, 1)) {
 				r.ok("C04-R4-verdict-dominance", key, c.pos(ret.Pos()), "returns the verdict of "+tailCallOK)
 				continue
 			}
@@ -601,18 +604,17 @@ func c04Verdicts(c *Ctx, r *Report) {
 	}, "checkCRC")
 	// the header verdict must run in every mode: decodeHeader call dominates every success return of decode
 	if fn := c.ssaFn(c.fn(c.fit, "decoder.decode")); fn != nil {
-		var hdr ssa.Instruction
-		for _, ci := range allCalls(fn) {
-			if f := ci.Common().StaticCallee(); f != nil && f.Name() == "decodeHeader" {
-				hdr = ci
-			}
-		}
-		ok := hdr != nil
-		if ok {
-			for _, ret := range c.successReturns(fn) {
-				if !instrDominates(hdr, ret) {
-					ok = false
+		hdrs := c.callsVia(fn, "decodeHeader") // directly, or through a helper that returns success only behind it
+		ok := len(hdrs) > 0
+		for _, ret := range c.successReturns(fn) {
+			dom := false
+			for _, h := range hdrs {
+				if instrDominates(h, ret) {
+					dom = true
 				}
+			}
+			if !dom {
+				ok = false
 			}
 		}
 		r.check(ok, "C04-R4-verdict-dominance", "decoder.decode/header-first", "", "decodeHeader dominates every success return of decode (all entry points check the header alike)", "a success return of decode is not dominated by decodeHeader")
@@ -675,7 +677,12 @@ func c04Layouts(c *Ctx, r *Report) {
 			v, ok := exprInt(info, se.High)
 			if !ok {
 				// d.h.Size-1 with Size == 14 on this path
-				if strings.HasSuffix(exprStr(se.High), ".Size-1") || strings.HasSuffix(exprStr(se.High), ".Size - 1") {
+				be, isBin := unparen(se.High).(*ast.BinaryExpr)
+				one, isOne := int64(0), false
+				if isBin && be.Op == token.SUB {
+					one, isOne = exprInt(info, be.Y)
+				}
+				if isBin && be.Op == token.SUB && strings.HasSuffix(exprStr(be.X), ".Size") && isOne && one == 1 {
 					v = sizeCRC - 1
 				} else {
 					return "", 0, 0, false
